@@ -131,7 +131,7 @@ theorem freezeR_eq (r : RF) : (freezeR r).f = r := by
   funext x
   simp only [freezeR, mkRF]
   split
-  · rename_i h; exact arr_get r 202 x h
+  · rename_i h; exact arr_get r 203 x h
   · split
     · rename_i h; rw [arr_get _ 640 _ (by omega), Nat.add_sub_cancel' h.1]
     · split
